@@ -25,7 +25,7 @@ RULE = ('exhaustive over the corpus: every case of Specs/**/*.json not marked No
         'repository\'s runner (model, extractor, parser and merged-parser levels, options from the file names) and, for model-level files, '
         'additionally by the strict comparator. non-trivial = a case that was executed (not skipped); distinct = distinct test id / (file, index).')
 EXHAUSTIVE = True
-JOB_TIMEOUT = 3000
+JOB_TIMEOUT = 5400
 RUNNERS = ['test_runner_datetime.py', 'test_runner_number.py', 'test_runner_number_with_unit.py', 'test_runner_sequence.py', 'test_runner_choice.py']
 
 
